@@ -6,11 +6,11 @@ CONSTANTS
   PrivateSuffix <- McPrivate
   ListIds = {"sb"}
   ListNames <- McListNames
-  MaxList = 2
+  MaxList = 1
   Hosts <- Names
-  QTypes = {"A", "AAAA", "HTTPS", "TXT", "MX"}
+  QTypes = {"A", "HTTPS", "TXT"}
   PrefixStrs <- McPrefixStrs
-  MaxStrs = 2
+  MaxStrs = 1
   H <- McH
   Variant = "no_trunc"
   KeepHist = FALSE
